@@ -2,6 +2,7 @@
 # protocol of lean/OsmoVerif/Driver/Trxd.lean (see there for the text encoding) and prints the
 # same canonical answers.  argv[1] = toolkit directory.  Nothing is written into the repo, no
 # network: DATAInterface gets an in-memory socket object from outside.
+from excname import exc_name
 import sys
 sys.dont_write_bytecode = True
 sys.path.insert(0, sys.argv[1])
@@ -95,7 +96,7 @@ def handle_if(tok):
                 try:
                     out.append(show_recv("t", dif.recv_tx_msg()) if op == "T" else show_recv("r", dif.recv_rx_msg()))
                 except Exception as e:
-                    out.append("E " + type(e).__name__)
+                    out.append("E " + exc_name(e))
             else:
                 raise AssertionError("bad interface operation")
             i += 2
@@ -117,7 +118,7 @@ def handle_if(tok):
             except AssertionError:
                 raise
             except Exception as e:
-                out.append("E " + type(e).__name__)
+                out.append("E " + exc_name(e))
             i += 2
         return "ok " + " ; ".join(out)
     return "bad-op"
@@ -192,13 +193,13 @@ def second_use(m, kind, legacy):
     try:
         g = "ok " + show_octets(m.gen_msg(legacy))
     except Exception as e:
-        g = type(e).__name__
+        g = exc_name(e)
     dif = make_if()
     try:
         dif.send_msg(m, legacy)
         sn = "ok " + " ".join([str(len(dif.sock.sent))] + [show_octets(d) for d in dif.sock.sent])
     except Exception as e:
-        sn = type(e).__name__
+        sn = exc_name(e)
     return g + " | " + sn
 
 
@@ -372,7 +373,7 @@ def run_hist(mode, data, tok):
                     h.ddf.append_msg(msgs[0])
                     out.append("D")
                 except Exception as e:
-                    out.append("E " + type(e).__name__)
+                    out.append("E " + exc_name(e))
             elif op == "L":
                 cnt = int(tok[i + 1])
                 j = i + 2
@@ -385,14 +386,14 @@ def run_hist(mode, data, tok):
                     h.ddf.append_all(msgs)
                     out.append("D")
                 except Exception as e:
-                    out.append("E " + type(e).__name__)
+                    out.append("E " + exc_name(e))
             elif op == "M":
                 idx = int(tok[i + 1])
                 i += 2
                 try:
                     out.append("m " + show_res(h.ddf.parse_msg(idx)))
                 except Exception as e:
-                    out.append("E " + type(e).__name__)
+                    out.append("E " + exc_name(e))
                     return " ; ".join(out) + " | ?"
             elif op == "P":
                 skip, count = opt_nat(tok[i + 1]), opt_nat(tok[i + 2])
@@ -400,7 +401,7 @@ def run_hist(mode, data, tok):
                 try:
                     out.append("a " + show_all(h.ddf.parse_all(skip, count)))
                 except Exception as e:
-                    out.append("E " + type(e).__name__)
+                    out.append("E " + exc_name(e))
                     return " ; ".join(out) + " | ?"
             elif op == "X":
                 h.crash(int(tok[i + 1]))
@@ -536,7 +537,7 @@ def main():
         try:
             out.append(handle(tok))
         except Exception as e:
-            out.append(type(e).__name__)
+            out.append(exc_name(e))
         if len(out) >= 4096:
             sys.stdout.write("\n".join(out) + "\n")
             out = []
